@@ -9,6 +9,56 @@ NOTE_COMMON = ('Trusted base: CrossHair 0.0.110 (symbolic execution of the real 
 	'the two interpreter shims of vlib/prelude.py. Every bound, stub and assume is listed in the evidence file; a timeout / unknown is reported as inconclusive, never as discharged.')
 
 CHECKS = {
+	'C01': {
+		'category': 'translation_validation',
+		'engine': 'tv',
+		'technique': 'translation validation: CPython ast and the emitted C++ text are both encoded as z3 bit-vector terms and compared for all inputs inside the agreement premises; sat models are replayed through g++ and CPython',
+		'text': 'For each of several thousand generated scalar functions (all operator pairs and triples, unary / boolean / ternary / parenthesised / nested shapes, if-elif-else, while, for-range, break/continue, augmented assignment, '
+			'declarations with inferred types, shadowing-prone reassignments, calls with default arguments, guarded raise) the real transpiler runs and z3 decides whether any inputs (three ints in [-2^15, 2^15), one bool) exist on which '
+			'Python and the emitted C++ return different values or differ in raising. unsat = equal for all such inputs; sat is reported only if the compiled C++ really differs from CPython.',
+		'design_ref': 'DESIGN.md section 2, C01',
+		'note': 'Programs are a bounded enumeration of shapes; inputs are a solver verdict. Loops unrolled 6 times with unwinding assumption. Outside: strings, containers, classes, enums, closures, exceptions with handlers, floats. '
+			'Trusted: z3 5.1, tv/sem.py + tv/fronts.py C++ subset semantics (validated each run against g++ on solver-chosen witnesses), CPython ast, g++ for replays. Open finding listed in known_findings.json: comparison chains.',
+	},
+	'C05': {
+		'category': 'model_checking',
+		'technique': 'bounded symbolic case analysis (CrossHair + z3) of the cache decision code over nondeterministic environment stubs; closed truncation obligations',
+		'text': 'Sentences 2 and 3 only. With os/glob/open, the source loader and the module replaced by recording stubs answering symbolic booleans, every path of CacheProvider.get and SymbolDBPersistor.stored/store/restore shows: '
+			'caching disabled => no cache file opened, unlinked, globbed, created or loaded; enabled => load iff the identity file exists, else exactly one save. Every truncation offset of a stored tree / symbol table either raises or restores the original.',
+		'design_ref': 'DESIGN.md section 2, C05',
+		'note': 'Sentence 1 (warm == cold over edit histories) is outside: it needs a file system, md5 identities and repeated pipeline runs. ' + NOTE_COMMON,
+	},
+	'C06': {
+		'category': 'model_checking',
+		'technique': 'bounded symbolic execution (CrossHair + z3) of header extraction with a JSON codec stub, of the regeneration decision and of the output-path mapping',
+		'text': 'Header and path sentences. For every single-line JSON text J (symbolic, bounded) and every rest-of-file text, the header written through to_header_str + the first template line is handed back to the decoder exactly; '
+			'can_transpile is true iff there is no old header or one of its five components differs; two distinct dotted module paths never map to the same output path under three output_dirs configurations (glob rules: closed obligation).',
+		'design_ref': 'DESIGN.md section 2, C06',
+		'note': 'json inside header.py is stubbed as an arbitrary single-line codec (CrossHair cannot close json on symbolic strings); md5 collision-freeness assumed. The history quantifier is outside. ' + NOTE_COMMON,
+	},
+	'C07': {
+		'category': 'model_checking',
+		'technique': 'bounded symbolic case analysis (CrossHair + z3) of the error-normalisation code with a parser stub raising arbitrary exceptions and handlers raising arbitrary exceptions',
+		'text': 'Normalisation kernels. Whatever exception the (stubbed) Lark parser raises - on disk or in memory - SyntaxParserOfLark lets only Errors.Syntax escape; whatever a Procedure handler raises at any of the first six handler calls of a real tree, '
+			'an Errors.Error escapes, ErrorRender renders it, and the procedure is reusable afterwards.',
+		'design_ref': 'DESIGN.md section 2, C07',
+		'note': 'Lark itself, type-resolution errors of ill-typed programs and termination are outside. ' + NOTE_COMMON,
+	},
+	'C08': {
+		'category': 'model_checking',
+		'technique': 'bounded symbolic execution (CrossHair + z3) of the delimiter-joined name arithmetic with symbolic identifiers free to be prefixes / suffixes / copies of each other',
+		'text': 'Name-handling kernels only: DSN, ModuleDSN and EntryPath operations agree with the list-of-elements reference for every triple of identifiers up to the stated length over [a b _ 1]; relativefy for element-aligned prefixes whose text does not recur.',
+		'design_ref': 'DESIGN.md section 2, C08',
+		'note': 'The metamorphic relation over whole programs needs the pipeline and is outside; the regex helpers of py2cpp / cpp_view_helper did not close within budget and are outside. ' + NOTE_COMMON,
+	},
+	'C09': {
+		'category': 'model_checking',
+		'technique': 'bounded symbolic case analysis (CrossHair + z3) over program templates, the node kind returning None and the position of nested / failing nested runs; real Procedure, Nodes and node classes on trees built by the shipped grammar',
+		'text': 'For 14 program templates x expression fillings x 9 choices of a node kind whose handler returns None x 4 positions of a nested exec (repeated failing and caught), a recording handler verifies for every visited node that each expandable property receives exactly '
+			'the results of the nodes it yields (single vs list, order), that one result remains, and that a second run starts clean. prop_keys() of every node class equals the definition order read from the class bodies.',
+		'design_ref': 'DESIGN.md section 2, C09',
+		'note': 'Finite case split (F); Lark builds the trees concretely. ' + NOTE_COMMON,
+	},
 	'C10': {
 		'category': 'model_checking',
 		'technique': 'bounded symbolic case analysis (CrossHair + z3) over tree shapes and query orders, real finder/cache/query/resolver code run on every feasible shape; reference = documented path rule + independent walk of the shape',
@@ -18,6 +68,22 @@ CHECKS = {
 		'design_ref': 'DESIGN.md section 2, C10',
 		'note': 'Finite case split (F): shape codes are symbolic ints, each path is one concrete tree. Tags are int-selected, not symbolic strings. ' + NOTE_COMMON,
 	},
+	'C11': {
+		'category': 'model_checking',
+		'technique': 'bounded symbolic execution (CrossHair + z3) of the real tokenizer on symbolic buffers, parser run per realised token list; finite slot templates; CPython ast as oracle through a canonical form',
+		'text': 'For every source buffer up to the stated length over 6-letter alphabets the parser returns a tree or Errors.Syntax whose summary names a token of the input and an existing line, and accepted buffers CPython also accepts have the same canonical structure. '
+			'Derivable sentences from 13 expression, 6 statement and 6 atom templates (all 17 binary operator spellings, keyword look-alike names, literal forms) are accepted with CPython\'s structure; 18 operator spellings outside the grammar are rejected.',
+		'design_ref': 'DESIGN.md section 2, C11',
+		'note': 'The parser runs natively on the realised token list of each lexer path (symbolic token strings through the terminal regexes do not close). ' + NOTE_COMMON,
+	},
+	'C12': {
+		'category': 'model_checking',
+		'technique': 'bounded symbolic execution (CrossHair + z3) of the grammar tokenizer on symbolic terminal text, finite grammar-shape templates, closed fixed-point obligations on the shipped files',
+		'text': 'For every string / regexp terminal text up to the stated length the one-rule grammar restores exactly that terminal, survives print-and-parse, and the rendered rule module evaluates to the same rules. '
+			'For 8 rule templates x slot fillings x unwrap markers the printed rule set parses back to an equal rule set (and accepts the same sentences with the same trees). The shipped grammars reproduce the built-in rules and the checked-in rule modules.',
+		'design_ref': 'DESIGN.md section 2, C12',
+		'note': 'Equality modulo groups that change neither language nor trees; terminals without single quotes; compiled files compared from the Rules.from_ast( call on. ' + NOTE_COMMON,
+	},
 	'C13': {
 		'category': 'model_checking',
 		'technique': 'bounded symbolic execution (CrossHair + z3) of the real lexer/tokenizer on symbolic source buffers over character-class alphabets; differential against a reference lexer validated against CPython tokenize',
@@ -26,6 +92,30 @@ CHECKS = {
 			'and layout-only rewrites (blank next to an operator, trailing blanks, comments, blank/comment lines, indentation unit) leave it unchanged. Bounded by buffer length; longer sources are not claimed.',
 		'design_ref': 'DESIGN.md section 2, C13',
 		'note': 'Lexical subset and layout domain as listed in the evidence assumptions; tokenizer.re.split is shimmed for the backslash-free continuation pattern. ' + NOTE_COMMON,
+	},
+	'C14': {
+		'category': 'model_checking',
+		'technique': 'bounded symbolic case analysis (CrossHair + z3) over attribute-tree shapes and module declaration orders; real expand/_deserialize_attrs/SymbolDB code on stub reflections',
+		'text': 'Attribute-path and ordering kernels: for every attribute tree of the family (fan-out up to 12, depth 3) flattening and _deserialize_attrs rebuild an isomorphic tree, twice, without growing the table; for every declaration order and reference assignment of a 5-row module '
+			'the export order never refers forward, import into a table holding only the other module restores every row, marks the module completed, and a second import changes nothing.',
+		'design_ref': 'DESIGN.md section 2, C14',
+		'note': 'Stub reflections; node/decl/via restoration through Entrypoints is outside. ' + NOTE_COMMON,
+	},
+	'C15': {
+		'category': 'model_checking',
+		'technique': 'bounded symbolic execution (CrossHair + z3) of Serialization.dumps/loads with symbolic positions, flags and strings; closed JSON-layer and truncation obligations',
+		'text': 'For 5 tree shapes with a symbolic token and a symbolic tree slot (8 unbounded position ints, presence / meta.empty flags; names and values over small alphabets) the restored tree equals the fresh one field by field through the Entry interface, also on a second walk, '
+			'with the same full paths, and dumps is idempotent. The JSON text layer round-trips representative strings; every truncated file raises or restores the original.',
+		'design_ref': 'DESIGN.md section 2, C15',
+		'note': 'lark.Token construction realises strings (finite alphabets for names/values). ' + NOTE_COMMON,
+	},
+	'C16': {
+		'category': 'model_checking',
+		'technique': 'bounded symbolic execution (CrossHair + z3) of the span arithmetic: SourceMap.make vs a reference, span views, the error quotation on symbolic columns, rendering through a real node',
+		'text': 'Span arithmetic kernels: SourceMap.make equals the line/column reference for every buffer and offset pair in the bound; EntryOfLark.source_map returns the recorded span or the documented default, also through the cache round trip; '
+			'the quotation marks exactly columns [begin, end) of the reported line (multi-line nodes to the end of the line, tabs one-for-one), also through ErrorRender on a real node.',
+		'design_ref': 'DESIGN.md section 2, C16',
+		'note': 'Spans produced by Lark are outside; file access of error_render is an in-memory stub. ' + NOTE_COMMON,
 	},
 	'C17': {
 		'category': 'model_checking',
@@ -106,6 +196,6 @@ def main() -> None:
 
 if __name__ == '__main__':
 	# properties still being built are listed under not_applicable with that reason until their check lands
-	for pid in ['C01', 'C05', 'C06', 'C07', 'C08', 'C09', 'C11', 'C12', 'C14', 'C15', 'C16']:
+	for pid in []:
 		PENDING[pid] = 'check designed (DESIGN.md section 2) but not landed yet in this commit; not claimed until it is.'
 	main()
